@@ -1,10 +1,10 @@
-import CoxeterVerif.Lemmas.Mutable
+import CoxeterVerif.Lemmas.Mutable2
 /-!
   # C08 — size setters hit their target by pure similarity; bad targets are refused
 
-  On the `CPState` machine of `Model/Mutable.lean` (the `ConvexPolyhedron` setters; the other
-  classes use the same `setterFactor` guard + `_rescale` pattern, which the correspondence checks
-  per setter): for every positive target the property reads back exactly, the new vertices are the
+  On the `CPState` machine of `Model/Mutable.lean` (the `ConvexPolyhedron` setters) and, in the
+  extension at the end of the file, on the machines of `Model/Mutable2.lean` for `Polyhedron`,
+  `Polygon`/`ConvexPolygon`, `ConvexSpheropolygon`, `ConvexSpheropolyhedron`: for every positive target the property reads back exactly, the new vertices are the
   old ones times one positive factor, dimensionless descriptors are unchanged; every non-positive
   target is refused with `ValueError` and no state change.
 -/
@@ -97,5 +97,273 @@ example : ∃ k, setterFactor 3 (2:ℝ) 16 = .ok k ∧ k * k * k = 8 := by
     rw [if_neg (not_not.mpr this)]; rfl
   · have := cbrt_cube (show (0:ℝ) < 16 / 2 by norm_num)
     rw [this]; norm_num
+
+end
+
+/-!
+  ## Extension: the other vertex-based classes (`Model/Mutable2.lean`)
+
+  Read-back theorems where the getter is a closed form of the model (`Polyhedron.volume`,
+  `Polyhedron.surface_area`, `Polygon.area`, `Polygon.perimeter`, the spheropolygon's area and
+  perimeter, the Steiner forms of the spheropolyhedron), generic ones (any homogeneous getter)
+  elsewhere; guards; the rounding radius as a shape parameter.
+-/
+noncomputable section
+
+/-! ### Polyhedron -/
+
+theorem ph_faceAreas_rescale (s : PHState ℝ) {k : ℝ} (hk : 0 < k) :
+    (s.rescale k).faceAreas = s.faceAreas.map (fun a => k * k * a) := by
+  unfold PHState.faceAreas PHState.rescale
+  simp only [List.map_map]
+  apply List.map_congr_left
+  intro f _
+  exact facePolyArea_smul hk s.verts f
+
+/-- the on-demand volume `Σ(−d)A/3` is homogeneous of degree 3 under `_rescale` -/
+theorem ph_volume_rescale (s : PHState ℝ) {k : ℝ} (hk : 0 < k) :
+    (s.rescale k).volume = s.volume * k ^ 3 := by
+  unfold PHState.volume Poly3.volume
+  rw [ph_faceAreas_rescale s hk]
+  show Scalar.sum (((s.eqD.map (· * k)).zip (s.faceAreas.map fun a => k * k * a)).map _) / lit 3 = _
+  simp only [Scalar.sum_real, sum_zip_volume]
+  ring
+
+theorem ph_surfaceArea_rescale (s : PHState ℝ) {k : ℝ} (hk : 0 < k) :
+    (s.rescale k).surfaceArea = s.surfaceArea * k ^ 2 := by
+  unfold PHState.surfaceArea
+  rw [ph_faceAreas_rescale s hk]
+  simp only [Scalar.sum_real]
+  rw [show (fun a : ℝ => k * k * a) = (fun a => (k * k) * id a) by rfl, list_sum_map_mul, List.map_id]
+  ring
+
+/-- **`Polyhedron.volume.setter` reads back and is a similarity** -/
+theorem ph_setVolume_reads_back (s : PHState ℝ) {v : ℝ} (hv : 0 < v) (hs : 0 < s.volume) :
+    ∃ k s', 0 < k ∧ s.setVolume v = .ok s' ∧ s'.volume = v ∧ s'.verts = s.verts.map (V3.smul k) ∧
+      s'.surfaceArea = s.surfaceArea * k ^ 2 := by
+  obtain ⟨k, hk, hf, he⟩ := setterFactor_spec (Or.inr (Or.inr rfl)) hs hv
+  refine ⟨k, s.rescale k, hk, ?_, ?_, rfl, ph_surfaceArea_rescale s hk⟩
+  · unfold PHState.setVolume; rw [hf]; rfl
+  · rw [ph_volume_rescale s hk]; exact he
+
+/-- **`Polyhedron.surface_area.setter` reads back and is a similarity** -/
+theorem ph_setSurfaceArea_reads_back (s : PHState ℝ) {v : ℝ} (hv : 0 < v) (hs : 0 < s.surfaceArea) :
+    ∃ k s', 0 < k ∧ s.setSurfaceArea v = .ok s' ∧ s'.surfaceArea = v ∧ s'.verts = s.verts.map (V3.smul k) ∧
+      s'.volume = s.volume * k ^ 3 := by
+  obtain ⟨k, hk, hf, he⟩ := setterFactor_spec (Or.inr (Or.inl rfl)) hs hv
+  refine ⟨k, s.rescale k, hk, ?_, ?_, rfl, ph_volume_rescale s hk⟩
+  · unfold PHState.setSurfaceArea; rw [hf]; rfl
+  · rw [ph_surfaceArea_rescale s hk]; exact he
+
+/-- **`Polyhedron` radius setters** (circumsphere, insphere, bounding / bounded spheres): any
+degree-one homogeneous functional of the vertices reads back -/
+theorem ph_setRadius_reads_back (s : PHState ℝ) (ρ : List (V3 ℝ) → ℝ)
+    (hhom : ∀ k : ℝ, 0 < k → ∀ vs, ρ (vs.map (V3.smul k)) = k * ρ vs)
+    {v : ℝ} (hv : 0 < v) (hcur : 0 < ρ s.verts) :
+    ∃ k s', 0 < k ∧ s.setRadius (ρ s.verts) v = .ok s' ∧ ρ s'.verts = v ∧
+      s'.verts = s.verts.map (V3.smul k) := by
+  obtain ⟨k, hk, hf, he⟩ := setterFactor_spec (Or.inl rfl) hcur hv
+  refine ⟨k, s.rescale k, hk, ?_, ?_, rfl⟩
+  · unfold PHState.setRadius; rw [hf]; rfl
+  · show ρ (s.verts.map (V3.smul k)) = v
+    rw [hhom k hk]; linarith [he, pow_one k]
+
+theorem ph_bad_target_refused (s : PHState ℝ) {v : ℝ} (hv : ¬ 0 < v) (cur : ℝ) :
+    s.setVolume v = .error "ValueError" ∧ s.setSurfaceArea v = .error "ValueError" ∧
+    s.setRadius cur v = .error "ValueError" := by
+  refine ⟨?_, ?_, ?_⟩
+  · unfold PHState.setVolume; rw [setterFactor_bad _ _ hv]; rfl
+  · unfold PHState.setSurfaceArea; rw [setterFactor_bad _ _ hv]; rfl
+  · unfold PHState.setRadius; rw [setterFactor_bad _ _ hv]; rfl
+
+/-- the isoperimetric quotient of a Polyhedron is unchanged by `_rescale` -/
+theorem ph_rescale_preserves_iq (s : PHState ℝ) {k : ℝ} (hk : 0 < k) (hS : s.surfaceArea ≠ 0) :
+    36 * Real.pi * (s.rescale k).volume ^ 2 / (s.rescale k).surfaceArea ^ 3
+      = 36 * Real.pi * s.volume ^ 2 / s.surfaceArea ^ 3 := by
+  rw [ph_volume_rescale s hk, ph_surfaceArea_rescale s hk]
+  have hk' : k ≠ 0 := hk.ne'
+  field_simp
+
+/-- the Polyhedron centroid setter is a pure translation of the vertices -/
+theorem ph_setCentroid_translation (s : PHState ℝ) (cur c : V3 ℝ) :
+    (s.setCentroid cur c).verts = s.verts.map (· + (c - cur)) := rfl
+
+/-! ### Polygon / ConvexPolygon -/
+
+theorem pg_area_rescale (s : PGState ℝ) (k : ℝ) : (s.rescale k).area = s.area * k ^ 2 := by
+  show Poly2.area (s.verts.map (V3.smul k)) s.normal = Poly2.area s.verts s.normal * k ^ 2
+  rw [area_smul]; ring
+
+theorem pg_perimeter_rescale (s : PGState ℝ) {k : ℝ} (hk : 0 ≤ k) : (s.rescale k).perimeter = s.perimeter * k := by
+  show Poly2.perimeter (s.verts.map (V3.smul k)) = Poly2.perimeter s.verts * k
+  rw [perimeter_smul hk]; ring
+
+/-- **`Polygon.area.setter` reads back and is a similarity** -/
+theorem pg_setArea_reads_back (s : PGState ℝ) {v : ℝ} (hv : 0 < v) (hs : 0 < s.area) :
+    ∃ k s', 0 < k ∧ s.setArea v = .ok s' ∧ s'.area = v ∧ s'.verts = s.verts.map (V3.smul k) ∧
+      s'.normal = s.normal ∧ s'.perimeter = s.perimeter * k := by
+  obtain ⟨k, hk, hf, he⟩ := setterFactor_spec (Or.inr (Or.inl rfl)) hs hv
+  refine ⟨k, s.rescale k, hk, ?_, ?_, rfl, rfl, pg_perimeter_rescale s hk.le⟩
+  · unfold PGState.setArea; rw [hf]; rfl
+  · rw [pg_area_rescale]; exact he
+
+/-- **`Polygon.perimeter.setter` reads back and is a similarity** -/
+theorem pg_setPerimeter_reads_back (s : PGState ℝ) {v : ℝ} (hv : 0 < v) (hs : 0 < s.perimeter) :
+    ∃ k s', 0 < k ∧ s.setPerimeter v = .ok s' ∧ s'.perimeter = v ∧ s'.verts = s.verts.map (V3.smul k) ∧
+      s'.normal = s.normal ∧ s'.area = s.area * k ^ 2 := by
+  obtain ⟨k, hk, hf, he⟩ := setterFactor_spec (Or.inl rfl) hs hv
+  refine ⟨k, s.rescale k, hk, ?_, ?_, rfl, rfl, pg_area_rescale s k⟩
+  · unfold PGState.setPerimeter; rw [hf]; rfl
+  · rw [pg_perimeter_rescale s hk.le]; linarith [he, pow_one k]
+
+/-- **`Polygon` radius setters** (circumcircle, incircle, bounding / bounded circles) -/
+theorem pg_setRadius_reads_back (s : PGState ℝ) (ρ : List (V3 ℝ) → ℝ)
+    (hhom : ∀ k : ℝ, 0 < k → ∀ vs, ρ (vs.map (V3.smul k)) = k * ρ vs)
+    {v : ℝ} (hv : 0 < v) (hcur : 0 < ρ s.verts) :
+    ∃ k s', 0 < k ∧ s.setRadius (ρ s.verts) v = .ok s' ∧ ρ s'.verts = v ∧
+      s'.verts = s.verts.map (V3.smul k) ∧ s'.normal = s.normal := by
+  obtain ⟨k, hk, hf, he⟩ := setterFactor_spec (Or.inl rfl) hcur hv
+  refine ⟨k, s.rescale k, hk, ?_, ?_, rfl, rfl⟩
+  · unfold PGState.setRadius; rw [hf]; rfl
+  · show ρ (s.verts.map (V3.smul k)) = v
+    rw [hhom k hk]; linarith [he, pow_one k]
+
+theorem pg_bad_target_refused (s : PGState ℝ) {v : ℝ} (hv : ¬ 0 < v) (cur : ℝ) :
+    s.setArea v = .error "ValueError" ∧ s.setPerimeter v = .error "ValueError" ∧
+    s.setRadius cur v = .error "ValueError" := by
+  refine ⟨?_, ?_, ?_⟩
+  · unfold PGState.setArea; rw [setterFactor_bad _ _ hv]; rfl
+  · unfold PGState.setPerimeter; rw [setterFactor_bad _ _ hv]; rfl
+  · unfold PGState.setRadius; rw [setterFactor_bad _ _ hv]; rfl
+
+/-- the 2-D isoperimetric quotient `4πA/p²` is unchanged by `_rescale` -/
+theorem pg_rescale_preserves_iq (s : PGState ℝ) {k : ℝ} (hk : 0 < k) (hp : s.perimeter ≠ 0) :
+    4 * Real.pi * (s.rescale k).area / (s.rescale k).perimeter ^ 2 = 4 * Real.pi * s.area / s.perimeter ^ 2 := by
+  rw [pg_area_rescale, pg_perimeter_rescale s hk.le]
+  have hk' : k ≠ 0 := hk.ne'
+  field_simp
+
+theorem pg_setCentroid_translation (s : PGState ℝ) (cur c : V3 ℝ) :
+    (s.setCentroid cur c).verts = s.verts.map (· + (c - cur)) ∧ (s.setCentroid cur c).normal = s.normal :=
+  ⟨rfl, rfl⟩
+
+/-! ### ConvexSpheropolygon -/
+
+/-- the state `_rescale(k)` produces when it does not raise -/
+def spgScaled (s : SPGState ℝ) (k : ℝ) : SPGState ℝ := ⟨s.core.rescale k, s.radius * k⟩
+
+/-- perimeter `P + 2πr` is homogeneous of degree 1 -/
+theorem spg_perimeter_rescale (s : SPGState ℝ) {k : ℝ} (hk : 0 ≤ k) :
+    (spgScaled s k).perimeter = s.perimeter * k := by
+  show Poly2.perimeter (s.core.verts.map (V3.smul k)) + lit 2 * Scalar.pi * (s.radius * k)
+    = (Poly2.perimeter s.core.verts + lit 2 * Scalar.pi * s.radius) * k
+  rw [perimeter_smul hk]; ring
+
+/-- area `|A ± (P r + π r²)|` is homogeneous of degree 2 -/
+theorem spg_area_rescale (s : SPGState ℝ) {k : ℝ} (hk : 0 < k) :
+    (spgScaled s k).area = s.area * k ^ 2 := by
+  have hkk : 0 < k * k := by positivity
+  have hsa : (spgScaled s k).signedArea = s.signedArea * (k * k) := by
+    unfold SPGState.signedArea
+    simp only [spgScaled, PGState.rescale, signedArea_smul, edgeSum_smul hk.le]
+    have hiff : (k * k * Poly2.signedArea s.core.verts s.core.normal < (lit 0 : ℝ)) ↔
+        (Poly2.signedArea s.core.verts s.core.normal < (lit 0 : ℝ)) := by
+      simp only [Scalar.lit, Scalar.ofNat_real, Nat.cast_zero]
+      constructor
+      · intro h; by_contra hn; have hn' := not_lt.mp hn; nlinarith [mul_nonneg hkk.le hn']
+      · intro h; nlinarith
+    by_cases hneg : Poly2.signedArea s.core.verts s.core.normal < (lit 0 : ℝ)
+    · rw [if_pos (hiff.mpr hneg), if_pos hneg]; ring
+    · rw [if_neg (fun h => hneg (hiff.mp h)), if_neg hneg]; ring
+  unfold SPGState.area
+  rw [hsa, Scalar.abs_real, Scalar.abs_real, abs_mul, abs_of_pos hkk]; ring
+
+/-- **`ConvexSpheropolygon.perimeter.setter` reads back; core and rounding radius scale alike** -/
+theorem spg_setPerimeter_reads_back (s : SPGState ℝ) {v : ℝ} (hv : 0 < v) (hs : 0 < s.perimeter)
+    (hr : 0 ≤ s.radius) :
+    ∃ k s', 0 < k ∧ s.setPerimeter v = .ok s' ∧ s'.perimeter = v ∧
+      s'.core.verts = s.core.verts.map (V3.smul k) ∧ s'.radius = s.radius * k := by
+  obtain ⟨k, hk, hf, he⟩ := setterFactor_spec (Or.inl rfl) hs hv
+  refine ⟨k, spgScaled s k, hk, ?_, ?_, rfl, rfl⟩
+  · unfold SPGState.setPerimeter; rw [hf]; exact spg_rescale_ok s hk.le hr
+  · rw [spg_perimeter_rescale s hk.le]; linarith [he, pow_one k]
+
+/-- **`ConvexSpheropolygon.area.setter` reads back; core and rounding radius scale alike** -/
+theorem spg_setArea_reads_back (s : SPGState ℝ) {v : ℝ} (hv : 0 < v) (hs : 0 < s.area) (hr : 0 ≤ s.radius) :
+    ∃ k s', 0 < k ∧ s.setArea v = .ok s' ∧ s'.area = v ∧
+      s'.core.verts = s.core.verts.map (V3.smul k) ∧ s'.radius = s.radius * k := by
+  obtain ⟨k, hk, hf, he⟩ := setterFactor_spec (Or.inr (Or.inl rfl)) hs hv
+  refine ⟨k, spgScaled s k, hk, ?_, ?_, rfl, rfl⟩
+  · unfold SPGState.setArea; rw [hf]; exact spg_rescale_ok s hk.le hr
+  · rw [spg_area_rescale s hk]; exact he
+
+/-- **the rounding radius is a shape parameter**: a non-negative value (zero included) reads back
+and nothing else changes; a negative one is refused -/
+theorem spg_setRadius_reads_back (s : SPGState ℝ) {v : ℝ} (hv : 0 ≤ v) :
+    ∃ s', s.setRadiusAbs v = .ok s' ∧ s'.radius = v ∧ s'.core = s.core :=
+  ⟨_, spg_setRadiusAbs_ok s hv, rfl, rfl⟩
+
+theorem spg_bad_target_refused (s : SPGState ℝ) {v : ℝ} (hv : ¬ 0 < v) :
+    s.setArea v = .error "ValueError" ∧ s.setPerimeter v = .error "ValueError" := by
+  constructor
+  · unfold SPGState.setArea; rw [setterFactor_bad _ _ hv]; rfl
+  · unfold SPGState.setPerimeter; rw [setterFactor_bad _ _ hv]; rfl
+
+theorem spg_negative_radius_refused (s : SPGState ℝ) {v : ℝ} (hv : v < 0) :
+    s.setRadiusAbs v = .error "ValueError" := spg_setRadiusAbs_bad s (not_le.mpr hv)
+
+/-! ### ConvexSpheropolyhedron -/
+
+def sphScaled (s : SPHState ℝ) (k : ℝ) : SPHState ℝ := ⟨s.core.rescale k, s.radius * k⟩
+
+/-- the Steiner forms of the getters are homogeneous (of degree 3, 2, 1) when the core's mean
+curvature `h` is homogeneous of degree 1 -/
+theorem sph_steiner_rescale (s : SPHState ℝ) (k h : ℝ) :
+    (sphScaled s k).steinerVolume (k * h) = s.steinerVolume h * k ^ 3 ∧
+    (sphScaled s k).steinerArea (k * h) = s.steinerArea h * k ^ 2 ∧
+    (sphScaled s k).steinerCurvature (k * h) = s.steinerCurvature h * k := by
+  refine ⟨?_, ?_, ?_⟩
+  · show s.core.volume * (k * k * k) + s.core.area * (k * k) * (s.radius * k)
+        + lit 4 * Scalar.pi * (k * h) * (s.radius * k * (s.radius * k))
+        + q 4 3 * Scalar.pi * (s.radius * k * (s.radius * k) * (s.radius * k)) = _
+    unfold SPHState.steinerVolume; ring
+  · show s.core.area * (k * k) + lit 8 * Scalar.pi * (k * h) * (s.radius * k)
+        + lit 4 * Scalar.pi * (s.radius * k * (s.radius * k)) = _
+    unfold SPHState.steinerArea; ring
+  · show k * h + s.radius * k = _
+    unfold SPHState.steinerCurvature; ring
+
+/-- **`ConvexSpheropolyhedron` volume / surface-area / mean-curvature setters**: any getter `g`
+that is homogeneous of the setter's degree under `_rescale` reads back; core vertices and
+rounding radius scale by the same positive factor -/
+theorem sph_setSize_reads_back (s : SPHState ℝ) (g : SPHState ℝ → ℝ) {deg : Nat}
+    (hdeg : deg = 1 ∨ deg = 2 ∨ deg = 3)
+    (hhom : ∀ k : ℝ, 0 < k → g (sphScaled s k) = g s * k ^ deg)
+    {v : ℝ} (hv : 0 < v) (hcur : 0 < g s) (hr : 0 ≤ s.radius) :
+    ∃ k s', 0 < k ∧ s.setSize deg (g s) v = .ok s' ∧ g s' = v ∧
+      s'.core.verts = s.core.verts.map (V3.smul k) ∧ s'.radius = s.radius * k := by
+  obtain ⟨k, hk, hf, he⟩ := setterFactor_spec hdeg hcur hv
+  refine ⟨k, sphScaled s k, hk, ?_, ?_, rfl, rfl⟩
+  · unfold SPHState.setSize; rw [hf]; exact sph_rescale_ok s hk.le hr
+  · rw [hhom k hk]; exact he
+
+theorem sph_setRadius_reads_back (s : SPHState ℝ) {v : ℝ} (hv : 0 ≤ v) :
+    ∃ s', s.setRadiusAbs v = .ok s' ∧ s'.radius = v ∧ s'.core = s.core :=
+  ⟨_, sph_setRadiusAbs_ok s hv, rfl, rfl⟩
+
+theorem sph_bad_target_refused (s : SPHState ℝ) {v : ℝ} (hv : ¬ 0 < v) (deg : Nat) (cur : ℝ) :
+    s.setSize deg cur v = .error "ValueError" := by
+  unfold SPHState.setSize; rw [setterFactor_bad _ _ hv]; rfl
+
+theorem sph_negative_radius_refused (s : SPHState ℝ) {v : ℝ} (hv : v < 0) :
+    s.setRadiusAbs v = .error "ValueError" := sph_setRadiusAbs_bad s (not_le.mpr hv)
+
+/-! ### non-vacuity -/
+example : ∃ k, 0 < k ∧ setterFactor 2 (3:ℝ) 12 = .ok k ∧ 3 * k ^ 2 = 12 :=
+  setterFactor_spec (Or.inr (Or.inl rfl)) (by norm_num) (by norm_num)
+
+example : (⟨⟨[⟨0, 0, 0⟩, ⟨1, 0, 0⟩, ⟨0, 1, 0⟩], ⟨0, 0, 1⟩⟩, 1 / 2⟩ : SPGState ℝ).setRadiusAbs 0
+    = .ok ⟨⟨[⟨0, 0, 0⟩, ⟨1, 0, 0⟩, ⟨0, 1, 0⟩], ⟨0, 0, 1⟩⟩, 0⟩ :=
+  spg_setRadiusAbs_ok _ le_rfl
 
 end
